@@ -154,23 +154,15 @@ Section Spec.
     repeat split; intros; destruct (ad_has_f s); apply fold_left_ext; intros a [g z]; reflexivity.
   Qed.
 
-  (** Full statement (REFUTED on the unchanged tree, Findings/C11_residual_arg.v):
-        forall s x, norm_primal_residual_gen__x s x = primal_residual_doc s x. *)
-  Theorem primal_residual_current : forall s,
-    norm_primal_residual_gen__none s = primal_residual_doc s (ad_x s).
+  (** norm_primal_residual(): sqrt(sum_i rho_i ||C_i x - z_i||^2) at the current iterate;
+      norm_primal_residual(x): at the argument, for EVERY x (repaired by /repo 51ad458). *)
+  Theorem primal_residual_follows_doc : forall s,
+    norm_primal_residual_gen__none s = primal_residual_doc s (ad_x s) /\
+    (forall x, norm_primal_residual_gen__x s x = primal_residual_doc s x).
   Proof.
-    intros s. unfold norm_primal_residual_gen__none, primal_residual_doc. f_equal.
-    apply fold_left_ext. intros a [r [C z]]. reflexivity.
+    intros s. unfold norm_primal_residual_gen__none, norm_primal_residual_gen__x, primal_residual_doc.
+    split; [|intros x]; f_equal; apply fold_left_ext; intros a [r [C z]]; reflexivity.
   Qed.
-  Theorem primal_residual_arg_ignored : forall s x,
-    norm_primal_residual_gen__x s x = primal_residual_doc s (ad_x s).
-  Proof.
-    intros s x. unfold norm_primal_residual_gen__x, primal_residual_doc. f_equal.
-    apply fold_left_ext. intros a [r [C z]]. reflexivity.
-  Qed.
-  Theorem primal_residual_arg_restricted : forall s x, x = ad_x s ->
-    norm_primal_residual_gen__x s x = primal_residual_doc s x.
-  Proof. intros s x ->. apply primal_residual_arg_ignored. Qed.
 
   Theorem dual_residual_follows_doc : forall s, norm_dual_residual_gen s = dual_residual_doc s.
   Proof.
